@@ -14,6 +14,7 @@ import ALV.Lemmas.C07Eval
 import ALV.Lemmas.C07Calc
 import ALV.Lemmas.C07Lagrange
 import ALV.Lemmas.C07Hash
+import ALV.Lemmas.C07Spec
 import ALV.Common.Audit
 
 set_option linter.unusedSectionVars false
@@ -310,14 +311,103 @@ theorem eq_hash {p q : MPoly K} (hp : WF p) (hq : WF q) : eq p q = true ↔ hash
 theorem hashKey_perm {p q : MPoly K} (hp : WF p) (h : p.Perm q) : hashKey p = hashKey q :=
   hashKey_eq_of_perm hp.1 h
 
-/-! ## non-vacuity -/
+/-! ## 6. the executable specification (`Spec/C07.lean`) and the model agree
 
-example : WF ([(-1, (1:ℚ) / 2), (2, 3)] : MPoly ℚ) := by
-  constructor
-  · decide
-  · intro kv h
-    simp at h
-    rcases h with h | h <;> subst h <;> norm_num
+`Spec/C07.lean` defines the ring operations coefficient-wise (sum, convolution, `(k+1)·c_{k+1}`)
+and returns canonical forms (powers ascending, no zero).  It denotes Mathlib's operations, and the
+model's results — once sorted by power, i.e. `sorted(dict(p.terms()).items())` — are *equal* to it. -/
+
+/-- the specification denotes the ring operations of `K[T;T⁻¹]` -/
+theorem spec_denotes (p q : MPoly K) (c : K) (n : ℕ) :
+    toLaurent (canon p) = toLaurent p ∧
+    toLaurent (sAdd p q) = toLaurent p + toLaurent q ∧
+    toLaurent (sNeg p) = -toLaurent p ∧
+    toLaurent (sSub p q) = toLaurent p - toLaurent q ∧
+    toLaurent (sMul p q) = toLaurent p * toLaurent q ∧
+    toLaurent (sConst c) = C c ∧
+    toLaurent (sPow p n) = toLaurent p ^ n ∧
+    toLaurent (sDiff p) = D (toLaurent p) :=
+  ⟨toLaurent_canon p, toLaurent_sAdd p q, toLaurent_sNeg p, toLaurent_sSub p q, toLaurent_sMul p q,
+    toLaurent_sConst c, toLaurent_sPow p n, toLaurent_sDiff p⟩
+
+theorem terms_eq_canon {p : MPoly K} (hp : WF p) : sortAsc p = canon p :=
+  sortAsc_eq_of_toLaurent hp (wf_canonOn _ _) (ascending_canonOn _ _) (toLaurent_canon p).symm
+
+theorem add_eq_spec {p q : MPoly K} (hp : WF p) (hq : WF q) : sortAsc (add p q) = sAdd p q :=
+  sortAsc_eq_of_toLaurent (wf_add _ _) (wf_canonOn _ _) (ascending_canonOn _ _)
+    ((toLaurent_add hp hq).trans (toLaurent_sAdd p q).symm)
+
+theorem neg_eq_spec {p : MPoly K} (hp : WF p) : sortAsc (neg p) = sNeg p :=
+  sortAsc_eq_of_toLaurent (wf_neg _) (wf_canonOn _ _) (ascending_canonOn _ _)
+    ((toLaurent_neg hp).trans (toLaurent_sNeg p).symm)
+
+theorem sub_eq_spec {p q : MPoly K} (hp : WF p) (hq : WF q) : sortAsc (sub p q) = sSub p q :=
+  sortAsc_eq_of_toLaurent (wf_sub _ _) (wf_canonOn _ _) (ascending_canonOn _ _)
+    ((toLaurent_sub hp hq).trans (toLaurent_sSub p q).symm)
+
+theorem mul_eq_spec (p q : MPoly K) : sortAsc (mul p q) = sMul p q :=
+  sortAsc_eq_of_toLaurent (wf_mul _ _) (wf_canonOn _ _) (ascending_canonOn _ _)
+    ((toLaurent_mul p q).trans (toLaurent_sMul p q).symm)
+
+theorem pow_eq_spec {p : MPoly K} (hp : WF p) (n : ℕ) : sortAsc (pow p (n : ℤ)) = sPow p n := by
+  have hs : WF (sPow p n) ∧ Ascending (sPow p n) := by
+    cases n with
+    | zero => exact ⟨wf_canonOn _ _, ascending_canonOn _ _⟩
+    | succ n => exact ⟨wf_canonOn _ _, ascending_canonOn _ _⟩
+  exact sortAsc_eq_of_toLaurent (wf_pow hp _) hs.1 hs.2
+    ((toLaurent_pow p n).trans (toLaurent_sPow p n).symm)
+
+theorem diff_eq_spec {p : MPoly K} (hp : WF p) : sortAsc (diff p) = sDiff p :=
+  sortAsc_eq_of_toLaurent (wf_diff hp 1) (wf_canonOn _ _) (ascending_canonOn _ _)
+    ((toLaurent_diff hp 1).trans (by rw [Function.iterate_one]; exact (toLaurent_sDiff p).symm))
+
+/-! ## non-vacuity: every hypothesis used above is satisfiable on a non-trivial input -/
+
+section Examples
+
+/-- `1/2·x⁻¹ + 3·x²` and `1 − x` -/
+private def p0 : MPoly ℚ := [(-1, 1 / 2), (2, 3)]
+private def q0 : MPoly ℚ := [(0, 1), (1, -1)]
+private def r0 : MPoly ℚ := [(3, 2), (0, -1), (1, 1 / 3)]
+
+private theorem wp : WF p0 := ⟨by decide +kernel, by decide +kernel⟩
+private theorem wq : WF q0 := ⟨by decide +kernel, by decide +kernel⟩
+private theorem wr : WF r0 := ⟨by decide +kernel, by decide +kernel⟩
+
+-- concrete values of the model (Laurent operands, unsorted creation order)
+example : add p0 q0 = [(-1, 1 / 2), (2, 3), (0, 1), (1, -1)] := by decide +kernel
+example : mul p0 q0 = [(-1, 1 / 2), (0, -1 / 2), (2, 3), (3, -3)] := by decide +kernel
+example : sub p0 p0 = [] := by decide +kernel
+example : pow q0 3 = [(0, 1), (1, -3), (2, 3), (3, -1)] := by decide +kernel
+example : diff p0 = [(-2, -1 / 2), (1, 6)] := by decide +kernel
+example : integrate q0 = .ok [(1, 1), (2, -1 / 2)] := by decide +kernel
+example : compose q0 q0 = [(1, 1)] := by decide +kernel
+example : lagrangeFunc [((1 : ℚ), 5), (2, 7), (4, 1 / 3)] 2 = .ok 7 := by decide +kernel
+example : lagrangeFunc [((1 : ℚ), 5), (2, 7), (4, 1 / 3)] 3 = .ok (49 / 9) := by decide +kernel
+example : lagrangeFunc [((1 : ℚ), 5)] 3 true = .ok 5 := by decide +kernel
+
+-- the implications, instantiated
+example : eq (add p0 q0) (add q0 p0) = true := add_comm wp wq
+example : eq (add (add p0 q0) r0) (add p0 (add q0 r0)) = true := add_assoc wp wq wr
+example : eq (mul p0 (add q0 r0)) (add (mul p0 q0) (mul p0 r0)) = true := left_distrib wq wr
+example : sub p0 p0 = [] := sub_self_empty wp
+example : eq (pow p0 ((3 : ℕ) : ℤ)) ((List.replicate 3 p0).foldl mul (ofScalar 1)) = true := pow_nfold wp 3
+example : call (mul p0 q0) 2 .yes = call p0 2 .yes * call q0 2 .yes :=
+  call_mul wp wq (Or.inl (by norm_num)) _
+example : call (mul q0 r0) 0 .auto = call q0 0 .auto * call r0 0 .auto :=
+  call_mul wq wr (Or.inr ⟨(isPoly_iff _).1 (by decide +kernel), (isPoly_iff _).1 (by decide +kernel)⟩) _
+example : call (add p0 q0) 2 .no = call p0 2 .no + call q0 2 .no := call_add wp wq _ _
+example : call (compose q0 p0) 2 .auto = call q0 (call p0 2 .yes) .no :=
+  call_compose_partial ((isPoly_iff _).1 (by decide +kernel)) wq p0 (by norm_num) _ _ _
+example : eq (diff (mul p0 q0)) (add (mul (diff p0) q0) (mul p0 (diff q0))) = true := diff_mul wp wq
+example : eq (diff [(1, 1), (2, -1 / 2)]) q0 = true :=
+  diff_integrate wq (show integrate q0 = .ok [(1, 1), (2, -1 / 2)] by decide +kernel)
+example : lagrangeFunc [((1 : ℚ), 5), (2, 7), (4, 1 / 3)] 4 = .ok (1 / 3) :=
+  lagrange_func_interp (by decide +kernel) (by decide) (by simp)
+example : hashKey (add p0 q0) = hashKey (add q0 p0) := (eq_hash (wf_add _ _) (wf_add _ _)).1 (add_comm wp wq)
+example : sortAsc (mul p0 q0) = sMul p0 q0 := mul_eq_spec p0 q0
+
+end Examples
 
 end ALV.Props.C07
 
